@@ -75,7 +75,7 @@ SPEC = dict(
                   'TlSchemas.deserialize by hand (cost only, upper-bound convention)',
                   'harness/workmeter.py: Python line events inside pytoniq_core are the unit of measured work',
                   'constants A,B per operation fixed in harness/props/C19.py (calibrated once, ~4x slack)',
-                  'harness/translate/pyarith.py + arith.py/arith2.py and lean/TonVerif/PyBytes.lean for the c19_src_* theorems (the vector-length guard of '
+                  'harness/translate/pyarith.py + arith.py/arith2.py and lean/TonVerif/PyBytes.lean + PyBytes2.lean for the c19_src_* theorems (the vector-length guard of '
                   'fix 110bf4a and the bytes-field skip arithmetic of TlSchemas.deserialize, regenerated from the source on every run and proved to be what '
                   'Tl.fieldStep of the cost model computes: c19_src_tl_vector_guard, c19_src_tl_bytes_skip)'],
     assumptions=['line events are a proxy of cost: C-level work (slicing, sha256, bitarray) is not counted',
@@ -327,6 +327,63 @@ def check_dag(ctx, nodes, tag, flagsets=('000', '111')):
         check_boc_bytes(ctx, boc, f'{tag}/boc{fl}', inp_extra={'family': tag, 'flags': fl})
 
 
+def check_unshared(ctx, depth, tag, shape):
+    """a bag written by a serialiser that does NOT deduplicate: every level of a 2-refs chain is present as two separate,
+    byte-identical records (legal to parse; 2*depth+1 records).  Parsing yields equal-but-distinct Cell objects; what is then
+    done with them - order, to_boc, ==, hash, set membership - must cost what the deduplicated chain costs (cells are
+    compared by hash), not one visit per path."""
+    from pytoniq_core.boc.cell import Cell
+    from . import C05
+    nodes = fam_chain(depth, 2) + [(G.ORD, '', (depth, depth))]       # the deduplicated DAG: what the library may be charged for
+    spec = G.spec_dag(nodes)
+
+    def rec(lvl, refs):
+        kind, bits, _ = nodes[lvl]
+        return dict(kind=kind, bits=bits, refs=refs, mask=0, hashes=[spec[lvl].H[0]], depths=[spec[lvl].D[0]])
+    if shape == 'ladder':
+        # two copies of every level, each referencing both copies of the level below
+        recs = [rec(depth + 1, [1, 2])]
+        for lvl in range(depth, -1, -1):
+            below = 3 + 2 * (depth - lvl)
+            for _copy in range(2):
+                recs.append(rec(lvl, [below, below + 1] if lvl > 0 else []))
+    else:
+        # the whole chain written twice; inside a copy every cell references its child twice (the same record)
+        recs = [rec(depth + 1, [1, 2 + depth])]
+        for c in range(2):
+            first = 1 + c * (depth + 1)
+            for k in range(depth + 1):
+                recs.append(rec(depth - k, [first + k + 1] * 2 if k < depth else []))
+    n = len(recs)
+    size = 1 if n < 256 else 2
+    tot = sum(len(C05.enc_record(r, size, False)) for r in recs)
+    fr = dict(magic='g', size=size, off=max(1, (tot.bit_length() + 7) // 8), idx=False, crc=False, cache=False, store=[], cflags=[])
+    bs = C05.py_encode(recs, [0], fr)
+    inp = {'family': tag, 'boc': bs.hex() if len(bs) < 4000 else f'{len(bs)} bytes: unshared 2-refs chain of depth {depth}'}
+    m = check_boc_bytes(ctx, bs, tag, inp_extra={'family': tag})
+    if m.exc is not None or m.aborted or not m.result:
+        ctx.count('unshared:not-parsed')
+        return
+    root = m.result[0]
+    arg = dag_arg(nodes)
+    ans = ctx.model.run([f'costorder {arg}', f'costboc {arg} 000'])
+    o = ans[0].split()
+    st = int(o[1]) + int(o[2])
+    steps_boc = int(ans[1].split()[1])
+    twin_a, twin_b = (root.refs[0], root.refs[1]) if len(root.refs) == 2 else (root, root)
+    for op, steps, fn, what in (('order', st, lambda: root.order(), 'Cell.order on a parsed non-deduplicated bag'),
+                                ('toboc', steps_boc, lambda: root.to_boc(False, False, False), 'Cell.to_boc on a parsed non-deduplicated bag'),
+                                ('order', st, lambda: (twin_a == twin_b, hash(twin_a) == hash(twin_b), twin_b in {twin_a}, {twin_a: 1}.get(twin_b)),
+                                 '== / hash / set and dict lookup on equal-but-distinct cells')):
+        mm = metered(op, steps, fn)
+        if not judge(ctx, op, steps, mm, {**inp, 'op': what}, what):
+            return
+        if mm.exc is not None:
+            ctx.fail(f'{op}:raised', f'{what} raised {type(mm.exc).__name__}', inp, repr(mm.exc), 'a result')
+            return
+    ctx.count('unshared:ok')
+
+
 def check_boc_batch(ctx, items, inp_extra=None):
     """items: list of (tag, bytes): Cell.from_boc on each, against bocCost.total"""
     from pytoniq_core.boc.cell import Cell
@@ -524,6 +581,12 @@ def check_dict(ctx, nodes, key_len, tag):
     m = metered('dict', steps, lambda: HashMap.parse(root.begin_parse(), key_len))
     ctx.count('dict:' + ('ok' if m.exc is None else type(m.exc).__name__))
     ctx.count('dict-model:' + res.split('.')[0])
+    if not tag.startswith('shared') and not tag.startswith('bogus'):
+        # dictionaries without shared forks: the input bound of the property as written
+        nbytes = len(root.to_boc())
+        if m.lines > 400 * nbytes + 20000:
+            ctx.fail('dict-input-bound:other', f'HashMap.parse work is not bounded by the input size on a dictionary without shared forks ({tag})',
+                     inp, f'{m.lines} lines', f'<= {400 * nbytes + 20000} (400 per input byte + 20000)')
     if judge(ctx, 'dict', steps, m, inp, 'HashMap.parse'):
         lib_raised = m.exc is not None
         # output-bounded reading (c19_dict_output): the entries the model counts are the entries the library returns
@@ -534,6 +597,34 @@ def check_dict(ctx, nodes, key_len, tag):
         if res.startswith('done') and lib_raised and not isinstance(m.exc, RecursionError):
             ctx.count('dict:model-done-lib-raised')
     return m
+
+
+def dict_input_bound(ctx):
+    """The property as WRITTEN for dictionaries: work bounded by the length of the input.  The library (and the model, which
+    mirrors it) unfold shared forks once per path, so three families break that reading - recorded in known_findings.json, one key
+    each; every other dictionary in this run is additionally held to the input bound (`dict-input-bound:other`)."""
+    from pytoniq_core.boc.hashmap.hashmap import HashMap
+    depth = 14
+    over = ('11' + '0' + format(depth + 3, f'0{(depth + 2).bit_length()}b'), (depth, depth), True)     # hml_same of length depth+3 > remaining key depth+2
+    fams = [('shared-forks-entries', fam_dict_shared(depth, depth + 2, 'leaf'), depth + 2,
+             f'a {depth + 1}-cell dictionary whose forks reference the same child twice, read with key length {depth + 2}: 2^{depth} genuine entries'),
+            ('shared-forks-pruned-bottom', fam_dict_shared(depth, depth + 2, 'exotic'), depth + 2,
+             f'the same forks over ONE non-ordinary (pruned / library) bottom cell: 2^{depth} visits, EMPTY result'),
+            ('shared-forks-label-longer-than-key', fam_dict_shared(depth, depth + 2, 'exotic') + [over], depth + 2,
+             f'a root label longer than the key (hml_same n = key length + 1): the remaining key length goes negative, never meets a leaf, '
+             f'2^{depth} visits, empty result - the label violates {{n <= m}} and should be refused at once')]
+    for key, nodes, key_len, what in fams:
+        cells = dd_build(nodes)
+        root = cells[-1]
+        nbytes = len(root.to_boc())
+        lim = 400 * nbytes + 20000
+        m = measure(lambda: HashMap.parse(root.begin_parse(), key_len), max_lines=lim, max_seconds=WALL_CAP)
+        ctx.case(('dict-input-bound', key), sample={'op': 'dict-input-bound', 'family': key, 'bytes': nbytes, 'lines': m.lines})
+        ctx.count('dict-input-bound:' + key)
+        if m.aborted or m.lines > lim:
+            ctx.fail('dict-input-bound:' + key, f'HashMap.parse does work exponential in the input size: {what}',
+                     {'dict': [list(n) for n in nodes], 'key_len': key_len, 'tag': 'input-bound:' + key, 'bytes': nbytes},
+                     f'> {lim} lines ({m.lines} when stopped)', f'<= 400 lines per input byte + 20000 = {lim}')
 
 
 def valid_dict_cell(rng, key_len, n):
@@ -902,6 +993,9 @@ def run(ctx):
         check_dag(ctx, fam_levels(d, w), f'levels{d}x{w}', flagsets=('000',))
     for t in range(ctx.n(12, 120)):
         check_dag(ctx, fam_random(rng, rng.choice([2, 5, 17, 60, 200])), f'rand{t}', flagsets=(rng.choice(['000', '100', '010', '111', '101']),))
+    for d in ((8, 20, 60) if not ctx.thorough else (3, 8, 16, 20, 24, 60, 200, 500)):
+        check_unshared(ctx, d, f'unshared-ladder{d}', 'ladder')
+        check_unshared(ctx, d, f'unshared-twice{d}', 'twice')
     if CALIBRATE:
         print('after dags', round(time.time() - t0, 1))
     # ---- BoC byte strings
@@ -935,6 +1029,7 @@ def run(ctx):
     for t in range(ctx.n(40, 400)):
         kl = rng.choice([1, 8, 32, 256])
         check_dict(ctx, fam_dict_bogus(rng, rng.choice([1, 5, 30, 200, 900]), kl), kl, f'bogus{t}')
+    dict_input_bound(ctx)
     # unary label of maximal length
     check_dict(ctx, [('0' + '1' * 1000 + '0', (), True)], 1023, 'unary1000')
     check_dict(ctx, [('0' + '1' * 1022, (), True)], 1023, 'unary-runs-out')
@@ -981,7 +1076,11 @@ def run(ctx):
 
 def replay(ctx, payload):
     inp = payload.get('input') or {}
-    if 'boc' in inp and isinstance(inp['boc'], str) and not inp['boc'].endswith(')') and ' bytes' not in inp['boc']:
+    import re as _re
+    mu = _re.match(r'unshared-(ladder|twice)(\d+)$', str(inp.get('family', '')))
+    if mu:
+        check_unshared(ctx, int(mu.group(2)), inp['family'], mu.group(1))
+    elif 'boc' in inp and isinstance(inp['boc'], str) and not inp['boc'].endswith(')') and ' bytes' not in inp['boc']:
         check_boc_bytes(ctx, bytes.fromhex(inp['boc']), inp.get('tag', 'replay'))
     elif 'dag' in inp and isinstance(inp['dag'], list):
         check_dag(ctx, [(k, b, tuple(r)) for k, b, r in inp['dag']], inp.get('family', 'replay'))
